@@ -1232,6 +1232,14 @@ where
                         // This is not an initial message so discard the initial_parsed_ast
                         initial_parsed_ast.take();
 
+                        // The timeout is for clients idle *in a transaction*: a session-mode
+                        // client that is merely idle between transactions keeps its server.
+                        let idle_client_timeout_duration = if server.in_transaction() {
+                            idle_client_timeout_duration
+                        } else {
+                            tokio::time::Duration::MAX
+                        };
+
                         match tokio::time::timeout(
                             idle_client_timeout_duration,
                             read_message(&mut self.read),
